@@ -35,8 +35,8 @@ func (c07) Rule() string {
 func (c07) Plan(tier string) []core.Segment {
 	return []core.Segment{
 		{Gen: "spec", Count: gen.CorpusSize(), Exhaustive: true},
-		{Gen: "inject", Count: scale(tier, 300_000, 12_000_000), Desc: "injection payloads placed into every attribute-bound position (destination, title, alt text, info string, autolink, definition, list start)"},
-		{Gen: "soup", Profile: "inject", Count: scale(tier, 300_000, 12_000_000)},
+		{Gen: "inject", Count: scale(tier, 600_000, 12_000_000), Desc: "injection payloads placed into every attribute-bound position (destination, title, alt text, info string, autolink, definition, list start)"},
+		{Gen: "soup", Profile: "inject", Count: scale(tier, 600_000, 12_000_000)},
 		{Gen: "soup", Profile: "html", Count: scale(tier, 100_000, 4_000_000)},
 		{Gen: "lines", Profile: "default", Count: scale(tier, 100_000, 4_000_000)},
 		{Gen: "lines", Profile: "hostile", Count: scale(tier, 50_000, 2_000_000)},
